@@ -15,7 +15,7 @@ trap 'git -C /repo worktree remove --force "$W" >/dev/null 2>&1; rm -rf "$W"' EX
 PKG=$(jq -r '.demo_dir // empty' "$D/meta.json" 2>/dev/null)
 RUN=$(jq -r '.demo_run // empty' "$D/meta.json" 2>/dev/null)
 if [ -z "$PKG" ]; then
-  PKG=$(grep -m1 -E '^\s*cp .*_test\.go' "$D/RUN.md" | sed 's/[[:space:]]#.*$//' | awk '{print $NF}' | sed 's#^/tmp/seed-[A-Z0-9]*/##; s#/$##')
+  PKG=$(grep -m1 -E '^\s*cp .*_test\.go' "$D/RUN.md" | sed 's/[[:space:]]#.*$//' | awk '{print $NF}' | sed 's#^/tmp/seed2\?-[A-Z0-9]*/##; s#/$##')
 fi
 if [ -z "$RUN" ]; then
   RUN=$(grep -m1 -oE -- "-run[ =]'?[^' ]+" "$D/RUN.md" | sed -E "s/-run[ =]'?//")
